@@ -18,7 +18,18 @@ package server
 
 // Every error path of the callback denies: (nil, err). The decision is taken
 // from the file as it is now (no state is kept between calls).
+// Which file holds "the target user's authorized keys" (C09): the cache file
+// <cwd>/<cache dir>/<user>.authorized_keys if it exists, else
+// <home of user>/.ssh/authorized_keys. The login name is chosen by the peer, so
+// it must not be able to steer the path elsewhere: a name with a path
+// separator is refused.
+//@ func authorizedKeysFile
+//@   requires [user] user != nil
+//@   assigns nothing
+//@   ensures [key-file-of-that-user] implies(isnil(result1) && result0 != "./id_rsa.pub", !contains(user.Name, "/") && (result0 == ufs_getwd(0) + "/" + config.Common.CacheDir + "/" + user.Name + ".authorized_keys" || result0 == ufs_homedir(user.Name) + "/.ssh/authorized_keys"))
 //@ func PublicKeyCallback
+//@   bind keyFile == authorizedKeysFile
+//@   at-call os.ReadFile [reads-that-users-key-file] isnil(keyFile1) && arg0 == keyFile0
 //@   requires [args] !isnil(c) && !isnil(offeredPubKey)
 //@   assigns nothing
 //@   ensures [deny-on-error] implies(!isnil(result1), result0 == nil)
